@@ -1,7 +1,13 @@
 """C10 -- device-side sync failures surface as the documented exception."""
 import oracles, scen
 from units.mk import Unit, COMMON
+
+
+def _conc(ctx):
+    from units import conc
+    conc.conc_sessions(ctx, int((40 if ctx.tier == "quick" else 600) * ctx.budget))
+
 Unit([("fail", scen.gen_fail, 1)], (oracles.o_c10, oracles.o_c10_expect) + COMMON,
      "FAIL for RECV immediately / after k DATA records; FAIL status for SEND at the end and overtaking the OKAY of the first WRTE (F5 ordering), for "
      "pushes needing 1..5 WRTEs; reason strings empty / 1 KiB / invalid UTF-8; FAIL record split across WRTEs; invalid known records at each point of "
-     "pull/push/stat/list. Non-trivial/distinct as for C01.", 200, 4000).export(globals())
+     "pull/push/stat/list. Non-trivial/distinct as for C01.", 200, 4000, extra_run=_conc).export(globals())
